@@ -884,5 +884,185 @@ theorem validP_norm {p : Pos} (hv : ValidP p) : ValidP (norm p) :=
 
 theorem apply_norm (p : Pos) (m : Move) : apply (norm p) m = apply p m := rfl
 
+theorem norm_ep_beq {p : Pos} {m : Move} {q : Sq} (hb : p.board m.src = some (.pawn, p.stm))
+    (hf : (m.dst.file - m.src.file).natAbs = 1) (hq : sq? m.dst.file m.src.rank = some q) :
+    ((norm p).ep == some q) = (p.ep == some q) := by
+  unfold norm
+  cases he : p.ep with
+  | none => rfl
+  | some e =>
+    simp only []
+    by_cases heq : e = q
+    · subst heq
+      have hq' := sq?_eq_some.mp hq
+      have : (allSq.any fun s => s.rank == e.rank && (s.file - e.file).natAbs == 1 && p.has s .pawn p.stm) = true := by
+        rw [List.any_eq_true]
+        refine ⟨m.src, List.mem_finRange _, ?_⟩
+        simp only [Bool.and_eq_true, beq_iff_eq, Pos.has, hb, and_true]
+        omega
+      rw [if_pos this]
+    · split
+      · rfl
+      · simp [heq]
+
+theorem pseudoLegal_norm (p : Pos) (m : Move) : pseudoLegal (norm p) m = pseudoLegal p m := by
+  unfold pseudoLegal
+  simp only [norm_board, norm_stm, norm_castleK, norm_castleQ]
+  split
+  · rfl
+  · rename_i pc c' hb
+    split
+    · have e1 : ∀ s, (norm p).colorAt s = p.colorAt s := fun _ => rfl
+      have e2 : ∀ s, (norm p).empty s = p.empty s := fun _ => rfl
+      have e3 : ∀ s a b, (norm p).has s a b = p.has s a b := fun _ _ _ => rfl
+      simp only [e1, e2, e3]
+      cases hc : (c' == p.stm)
+      · rfl
+      · have hc' : c' = p.stm := by simpa using hc
+        subst hc'
+        cases hF : ((m.dst.file - m.src.file).natAbs == 1)
+        · rfl
+        · cases hq : sq? m.dst.file m.src.rank with
+          | none => rfl
+          | some q =>
+            simp only []
+            rw [norm_ep_beq hb (by simpa using hF) hq]
+            rfl
+    · rfl
+    · rfl
+
+/-- Legality does not see whether the en-passant mark was recorded by the library's policy. -/
+theorem legal_norm (p : Pos) (m : Move) : legal (norm p) m = legal p m := by
+  unfold legal
+  rw [pseudoLegal_norm, apply_norm, norm_stm]
+
+/-! ### histories -/
+
+theorem rights_shrinkK {p : Pos} {m : Move} {c : Color} (h : (apply p m).castleK c = true) : p.castleK c = true :=
+  (apply_castleK.mp h).1
+theorem rights_shrinkQ {p : Pos} {m : Move} {c : Color} (h : (apply p m).castleQ c = true) : p.castleQ c = true :=
+  (apply_castleQ.mp h).1
+
+end Closure
+
+/-- play a list of moves, each of which must be legal where it is played -/
+def playLegal (p : Pos) : List Move → Option Pos
+  | [] => some p
+  | m :: ms => if legal p m then playLegal (apply p m) ms else none
+
+/-- the same history as the library holds it: after every move the en-passant mark is recorded by the
+library's policy `norm` -/
+def playLegalNorm (p : Pos) : List Move → Option Pos
+  | [] => some p
+  | m :: ms => if legal p m then playLegalNorm (norm (apply p m)) ms else none
+
+/-- `q` is reachable from `p` by a sequence of legal moves -/
+def Reachable (p q : Pos) : Prop := ∃ ms, playLegal p ms = some q
+
+/-- the monotone quantities of C05: `q` has no castling right, no more men and no more pawns than `p` -/
+structure MonoLE (q p : Pos) : Prop where
+  castleK : ∀ c, q.castleK c = true → p.castleK c = true
+  castleQ : ∀ c, q.castleQ c = true → p.castleQ c = true
+  men : ∀ c, count q (·.2 == c) ≤ count p (·.2 == c)
+  pawns : ∀ c, count q (· == (.pawn, c)) ≤ count p (· == (.pawn, c))
+
+namespace Closure
+
+theorem MonoLE.refl (p : Pos) : MonoLE p p := ⟨fun _ h => h, fun _ h => h, fun _ => Nat.le_refl _, fun _ => Nat.le_refl _⟩
+
+theorem MonoLE.trans {a b c : Pos} (h1 : MonoLE a b) (h2 : MonoLE b c) : MonoLE a c :=
+  ⟨fun d h => h2.castleK d (h1.castleK d h), fun d h => h2.castleQ d (h1.castleQ d h),
+   fun d => Nat.le_trans (h1.men d) (h2.men d), fun d => Nat.le_trans (h1.pawns d) (h2.pawns d)⟩
+
+theorem monoLE_step {p : Pos} {m : Move} (h : pseudoLegal p m = true) : MonoLE (apply p m) p :=
+  ⟨fun _ => rights_shrinkK, fun _ => rights_shrinkQ, men_shrink h, pawns_shrink h⟩
+
+theorem monoLE_norm (p : Pos) : MonoLE (norm p) p := ⟨fun _ h => h, fun _ h => h, fun _ => Nat.le_refl _, fun _ => Nat.le_refl _⟩
+
+theorem legal_pseudo {p : Pos} {m : Move} (h : legal p m = true) : pseudoLegal p m = true := by
+  simp only [legal, Bool.and_eq_true] at h; exact h.1
+
+theorem playLegal_validP {p q : Pos} {ms : List Move} (hv : ValidP p) (h : playLegal p ms = some q) : ValidP q := by
+  induction ms generalizing p with
+  | nil => simp only [playLegal, Option.some.injEq] at h; rw [← h]; exact hv
+  | cons m ms ih =>
+    simp only [playLegal] at h
+    split at h
+    · rename_i hl; exact ih (validP_step hv hl) h
+    · cases h
+
+theorem playLegalNorm_validP {p q : Pos} {ms : List Move} (hv : ValidP p) (h : playLegalNorm p ms = some q) :
+    ValidP q := by
+  induction ms generalizing p with
+  | nil => simp only [playLegalNorm, Option.some.injEq] at h; rw [← h]; exact hv
+  | cons m ms ih =>
+    simp only [playLegalNorm] at h
+    split at h
+    · rename_i hl; exact ih (validP_norm (validP_step hv hl)) h
+    · cases h
+
+theorem playLegal_mono {p q : Pos} {ms : List Move} (h : playLegal p ms = some q) : MonoLE q p := by
+  induction ms generalizing p with
+  | nil => simp only [playLegal, Option.some.injEq] at h; rw [← h]; exact MonoLE.refl p
+  | cons m ms ih =>
+    simp only [playLegal] at h
+    split at h
+    · rename_i hl; exact MonoLE.trans (ih h) (monoLE_step (legal_pseudo hl))
+    · cases h
+
+theorem playLegalNorm_mono {p q : Pos} {ms : List Move} (h : playLegalNorm p ms = some q) : MonoLE q p := by
+  induction ms generalizing p with
+  | nil => simp only [playLegalNorm, Option.some.injEq] at h; rw [← h]; exact MonoLE.refl p
+  | cons m ms ih =>
+    simp only [playLegalNorm] at h
+    split at h
+    · rename_i hl; exact MonoLE.trans (MonoLE.trans (ih h) (monoLE_norm _)) (monoLE_step (legal_pseudo hl))
+    · cases h
+
+theorem playLegal_append (p : Pos) (a b : List Move) :
+    playLegal p (a ++ b) = (playLegal p a).bind (fun q => playLegal q b) := by
+  induction a generalizing p with
+  | nil => rfl
+  | cons m ms ih =>
+    simp only [List.cons_append, playLegal]
+    split
+    · exact ih _
+    · rfl
+
+theorem norm_norm (p : Pos) : norm (norm p) = norm p := by
+  cases he : p.ep with
+  | none => simp [norm, he]
+  | some q =>
+    by_cases hc : (allSq.any fun s => s.rank == q.rank && (s.file - q.file).natAbs == 1 && p.has s .pawn p.stm) = true
+    · have e1 : norm p = { p with ep := some q } := by
+        simp only [norm, he, hc, if_true]
+      rw [e1]
+      simp only [norm]
+      have : (allSq.any fun s => s.rank == q.rank && (s.file - q.file).natAbs == 1 &&
+          ({ p with ep := some q } : Pos).has s .pawn p.stm) = true := hc
+      rw [if_pos this]
+    · have e1 : norm p = { p with ep := none } := by
+        simp only [norm, he, hc]
+        rfl
+      rw [e1]
+      rfl
+
+/-- the library's history is the specification's history with `norm` applied to the positions: the
+same move lists are playable and the end positions agree up to `norm` -/
+theorem playLegalNorm_eq (p : Pos) (ms : List Move) :
+    (playLegalNorm (norm p) ms).map norm = (playLegal p ms).map norm ∧
+    (playLegalNorm p ms).map norm = (playLegal p ms).map norm := by
+  induction ms generalizing p with
+  | nil => exact ⟨by simp [playLegalNorm, playLegal, norm_norm], rfl⟩
+  | cons m ms ih =>
+    simp only [playLegalNorm, playLegal, legal_norm, apply_norm]
+    constructor
+    · split
+      · exact (ih _).1
+      · rfl
+    · split
+      · exact (ih _).1
+      · rfl
+
 end Closure
 end Chess
